@@ -1088,8 +1088,8 @@ def ma3b(ctx):
     """Wherever a queue's record metas are dropped wholesale (clear, truncate, mem::take/replace, field
     replaced) the payload buffer is released too, on every path: an emptied queue holds no payload bytes."""
     n = 0
-    for b in ctx.f.bodies.values():
-        if b.generic_dup() or b.is_closure or not b.path.startswith('mem::queue::MemQueue::'):
+    for b in list(ctx.f.bodies.values()) + list(ctx.f.dropped_helpers):
+        if (b.generic_dup() if b.id in ctx.f.bodies else False) or b.is_closure or not b.path.startswith('mem::queue::MemQueue::'):
             continue
 
         def on_field(cs, field, argi=0):
